@@ -175,6 +175,16 @@ def injector_cases():
                     add('group-reference-forms', f'{sel} FROM #t GROUP BY {ra}, {k1}, {k2}', R)
                     add('order-reference-forms', f'{sel} FROM #t GROUP BY {k1}, {k2} ORDER BY {ra}, {k2} DESC, {k1}', A)
             add('group-reference-forms', f'{sel} FROM #t GROUP BY {k1}', R)                               # the other key target is not covered
+    # dates that do not exist, in every position a literal can take (bare, parenthesised, list element, argument, bound, clause date)
+    for bad in ('2024-02-30', '2021-02-29', '2024-13-01', '2020-00-10', '2020-04-31'):
+        for tmpl in ('SELECT {}', 'SELECT ({})', 'SELECT (({}))', 'SELECT ( {} )', 'SELECT 1 + ({}) * 2', 'SELECT dt IN ({},) FROM #t', 'SELECT dt IN ({}, 2020-01-01) FROM #t',
+                     'SELECT dt IN (2020-01-01, {}) FROM #t', 'SELECT year({}) FROM #t', 'SELECT year(({})) FROM #t', 'SELECT dt BETWEEN {} AND 2020-01-01 FROM #t',
+                     'SELECT dt BETWEEN 2020-01-01 AND ({}) FROM #t', 'SELECT dt < ({}) FROM #t', 'SELECT i FROM #t WHERE dt = {}', 'SELECT coalesce(dt, ({})) FROM #t',
+                     'SELECT date FROM OPEN ON {}', 'SELECT date FROM CLOSE ON {}', 'SELECT -({}) FROM #t', 'SELECT i FROM #t ORDER BY ({})'):
+            add('invalid-calendar-date', tmpl.format(bad), R)
+    for good in ('2024-02-29', '2020-12-31'):
+        for tmpl in ('SELECT ({})', 'SELECT dt IN ({},) FROM #t', 'SELECT year(({})) FROM #t', 'SELECT dt < ({}) FROM #t'):
+            add('invalid-calendar-date', tmpl.format(good), A)
     # coalesce
     add('coalesce', 'SELECT coalesce(i, j) FROM #t', A)
     add('coalesce', 'SELECT coalesce(i, 1) FROM #t', A)
